@@ -1,4 +1,5 @@
 import GomlVerif.Lemmas.C12Tree
+import GomlVerif.Lemmas.C12Regex
 /-!
 # C12 — the syntax tree is lossless and positions are exact
 
@@ -11,11 +12,6 @@ sums (`byteLen`), so "on a char boundary" is `charsOfBytes s n = some _`.
 -/
 namespace Goml.C12
 open Goml.Lex Goml.Tree Goml.Gen.Tokens
-
-/-- consecutive ranges: each starts where the previous ended, is non-empty, the last ends at `b` -/
-def Tiles : Nat → List (Nat × Nat) → Nat → Prop
-  | a, [], b => a = b
-  | a, (x, y) :: rs, b => x = a ∧ x < y ∧ Tiles y rs b
 
 /-! ## facts about the generated tables (re-checked whenever `Gen/Tokens.lean` changes) -/
 
@@ -70,50 +66,6 @@ theorem lex_tiles (rules : Rules) (errLen : List Char → Nat → Nat) (h : ∀ 
   rw [← h2]
   simp [textOf, List.length_flatMap, Function.comp_def]
 
-theorem tiles_of_nonempty (ts : List Tok) (h : ∀ t ∈ ts, t.text ≠ []) (off : Nat) :
-    Tiles off (ranges off ts) (off + byteLen (textOf ts)) := by
-  induction ts generalizing off with
-  | nil => simp [ranges, Tiles, textOf, byteLen]
-  | cons t ts ih =>
-    simp only [ranges, Tiles, textOf_cons, byteLen_append, true_and]
-    have hpos : 0 < byteLen t.text := by
-      cases ht : t.text with
-      | nil => exact absurd ht (h t (by simp))
-      | cons c cs => have := utf8Len_pos c; simp only [byteLen]; omega
-    refine ⟨by omega, ?_⟩
-    have := ih (fun t' ht' => h t' (List.mem_cons_of_mem _ ht')) (off + byteLen t.text)
-    rw [Nat.add_assoc] at this
-    exact this
-
-theorem charsOfBytes_prefix (a b : List Char) : charsOfBytes (a ++ b) (byteLen a) = some a.length := by
-  induction a with
-  | nil => cases b <;> simp [charsOfBytes, byteLen]
-  | cons c cs ih =>
-    have hp := utf8Len_pos c
-    simp only [byteLen, List.cons_append]
-    obtain ⟨m, hm⟩ : ∃ m, utf8Len c + byteLen cs = m + 1 := ⟨utf8Len c + byteLen cs - 1, by omega⟩
-    rw [hm]
-    simp only [charsOfBytes]
-    rw [if_pos (by omega)]
-    have : m + 1 - utf8Len c = byteLen cs := by omega
-    rw [this, ih]; rfl
-
-theorem range_ends_are_boundaries (ts : List Tok) (pre : List Char) :
-    ∀ r ∈ ranges (byteLen pre) ts, ∃ k, charsOfBytes (pre ++ textOf ts) r.2 = some k := by
-  induction ts generalizing pre with
-  | nil => intro r hr; simp [ranges] at hr
-  | cons t ts ih =>
-    intro r hr
-    simp only [ranges] at hr
-    rcases List.mem_cons.1 hr with rfl | hr
-    · refine ⟨(pre ++ t.text).length, ?_⟩
-      simp only
-      rw [textOf_cons, ← List.append_assoc, ← byteLen_append]
-      exact charsOfBytes_prefix _ _
-    · have := ih (pre ++ t.text) r (by rw [byteLen_append]; exact hr)
-      rw [textOf_cons, ← List.append_assoc]
-      exact this
-
 /-- **Token ranges tile the text on character boundaries**: the byte ranges of the tokens
 start at 0, are contiguous and non-empty, end at the byte length of the text, and every range
 end is a char boundary of the text. -/
@@ -138,88 +90,36 @@ theorem tokens_are_longestMatch (rules : Rules) (errLen : List Char → Nat → 
     ∀ (pre : List Tok) (t : Tok) (post : List Tok), ts = pre ++ t :: post →
       longestMatch rules (textOf (t :: post)) = .tok t.kind t.text.length ∨
         (longestMatch rules (textOf (t :: post)) = .noMatch ∧ t.kind = rules.errorKind) := by
-  have key : ∀ (fuel pos : Nat) (rest : List Char) (ts : List Tok),
-      lexLoop rules (errLen s) fuel pos rest = .ok ts → textOf ts = rest ∧
-      ∀ (pre : List Tok) (t : Tok) (post : List Tok), ts = pre ++ t :: post →
-        longestMatch rules (textOf (t :: post)) = .tok t.kind t.text.length ∨
-          (longestMatch rules (textOf (t :: post)) = .noMatch ∧ t.kind = rules.errorKind) := by
-    intro fuel
-    induction fuel with
-    | zero =>
-      intro pos rest ts h
-      cases rest with
-      | nil => simp only [lexLoop, LexResult.ok.injEq] at h; subst h
-               exact ⟨rfl, by intro pre t post hp; simp at hp⟩
-      | cons c cs => simp [lexLoop] at h
-    | succ fuel ih =>
-      intro pos rest ts h
-      cases rest with
-      | nil => simp only [lexLoop, LexResult.ok.injEq] at h; subst h
-               exact ⟨rfl, by intro pre t post hp; simp at hp⟩
-      | cons c cs =>
-        simp only [lexLoop] at h
-        have step : ∀ (k n : Nat) (ts : List Tok), 0 < n →
-            (lexLoop rules (errLen s) fuel (pos + n) ((c :: cs).drop n)).cons ⟨k, (c :: cs).take n⟩ = .ok ts →
-            ∃ ts', ts = ⟨k, (c :: cs).take n⟩ :: ts' ∧ textOf ts' = (c :: cs).drop n ∧
-              (∀ (pre : List Tok) (t : Tok) (post : List Tok), ts' = pre ++ t :: post →
-                longestMatch rules (textOf (t :: post)) = .tok t.kind t.text.length ∨
-                  (longestMatch rules (textOf (t :: post)) = .noMatch ∧ t.kind = rules.errorKind)) := by
-          intro k n ts hn hc
-          cases hr : lexLoop rules (errLen s) fuel (pos + n) ((c :: cs).drop n) with
-          | ok ts' =>
-            rw [hr] at hc
-            simp only [LexResult.cons, LexResult.ok.injEq] at hc
-            obtain ⟨e1, e2⟩ := ih _ _ _ hr
-            exact ⟨ts', hc.symm, e1, e2⟩
-          | stuck a b => rw [hr] at hc; simp [LexResult.cons] at hc
-          | panic a b => rw [hr] at hc; simp [LexResult.cons] at hc
-        cases hm : longestMatch rules (c :: cs) with
-        | tok k n =>
-          rw [hm] at h
-          simp only at h
-          have hn := longestMatch_tok_pos _ _ _ _ hm
-          rw [if_neg (Nat.ne_of_gt hn)] at h
-          obtain ⟨ts', e0, e1, e2⟩ := step k n ts hn h
-          subst e0
-          have htext : textOf (⟨k, (c :: cs).take n⟩ :: ts') = c :: cs := by
-            rw [textOf_cons, e1]; exact List.take_append_drop n (c :: cs)
-          refine ⟨htext, ?_⟩
-          intro pre t post hp
-          cases pre with
-          | nil =>
-            simp only [List.nil_append, List.cons.injEq] at hp
-            obtain ⟨rfl, rfl⟩ := hp
-            left
-            rw [htext, hm]
-            have hle : n ≤ (c :: cs).length := longestMatch_len_le rules (c :: cs) k n hm
-            simp only [List.length_take, List.length_cons] at hle ⊢
-            rw [Nat.min_eq_left hle]
-          | cons p pre' =>
-            simp only [List.cons_append, List.cons.injEq] at hp
-            exact e2 pre' t post hp.2
-        | noMatch =>
-          rw [hm] at h
-          simp only at h
-          by_cases hn : errLen s pos = 0
-          · simp [hn] at h
-          · rw [if_neg hn] at h
-            obtain ⟨ts', e0, e1, e2⟩ := step _ _ ts (Nat.pos_of_ne_zero hn) h
-            subst e0
-            have htext : textOf (⟨rules.errorKind, (c :: cs).take (errLen s pos)⟩ :: ts') = c :: cs := by
-              rw [textOf_cons, e1]; exact List.take_append_drop _ (c :: cs)
-            refine ⟨htext, ?_⟩
-            intro pre t post hp
-            cases pre with
-            | nil =>
-              simp only [List.nil_append, List.cons.injEq] at hp
-              obtain ⟨rfl, rfl⟩ := hp
-              right
-              rw [htext, hm]; exact ⟨rfl, rfl⟩
-            | cons p pre' =>
-              simp only [List.cons_append, List.cons.injEq] at hp
-              exact e2 pre' t post hp.2
-        | badBump nb => exact absurd hm (longestMatch_no_badBump _ _ _)
-  exact (key _ _ _ _ h).2
+  exact (lexLoop_longestMatch rules (errLen s) _ _ _ _ h).2
+
+/-- **Every non-error token is the longest match at its start**: no `#[token]` literal and no
+`#[regex]` pattern of the table matches a longer prefix of the remaining text than the token that
+was produced (`Re.Matches` is the declarative meaning of the regex AST; the matcher's correctness
+with respect to it is proved in `Lemmas/C12Regex.lean`). -/
+theorem valid_tokens_maximal (rules : Rules) (errLen : List Char → Nat → Nat) (s : List Char)
+    (ts : List Tok) (h : lexAll rules errLen s = .ok ts)
+    (pre : List Tok) (t : Tok) (post : List Tok) (hs : ts = pre ++ t :: post)
+    (hk : t.kind ≠ rules.errorKind) :
+    ∀ j, RuleMatches rules (textOf (t :: post)) j → j ≤ t.text.length := by
+  rcases tokens_are_longestMatch rules errLen s ts h pre t post hs with h1 | h1
+  · exact longestMatch_maximal rules _ _ _ h1
+  · exact absurd h1.2 hk
+
+/-- **An error token occurs only where no rule matches** (or where the multi-line-string callback
+rejected its `\\\\` match): for a table whose rule kinds differ from `Error`, at the start of every
+error token either no rule matches any non-empty prefix, or a rule *with a callback* matched. -/
+theorem error_only_without_match (rules : Rules) (errLen : List Char → Nat → Nat) (s : List Char)
+    (hkinds : (∀ l ∈ rules.literals, l.1 ≠ rules.errorKind) ∧ (∀ r ∈ rules.regexes, r.kind ≠ rules.errorKind))
+    (ts : List Tok) (h : lexAll rules errLen s = .ok ts)
+    (pre : List Tok) (t : Tok) (post : List Tok) (hs : ts = pre ++ t :: post)
+    (hk : t.kind = rules.errorKind) :
+    (∀ j, ¬ RuleMatches rules (textOf (t :: post)) j) ∨
+      ∃ r ∈ rules.regexes, r.callback.isSome = true ∧
+        ∃ j, 0 < j ∧ Re.Matches r.re (Re.word ((textOf (t :: post)).take j)) := by
+  rcases tokens_are_longestMatch rules errLen s ts h pre t post hs with h1 | h1
+  · exfalso
+    exact longestMatch_kind_ne rules _ _ _ h1 hkinds hk
+  · exact longestMatch_noMatch rules _ h1.1
 
 /-! ## the tree builder -/
 
